@@ -102,6 +102,21 @@ theorem C16_narrowing (o : Opts) (enc : Enc) (quoted : Bool) (s : Bytes) :
       · intro e x f hi hu hf; exact serializeScalar_u64 enc s eb e x f hb hi hu hf
       · intro e1 e2 f hi hu hf; exact serializeScalar_f64 enc s eb e1 e2 f hb hi hu hf
 
+/-- The `(_, Ok(x), Ok(_)) => s.serialize_u64(x)` arm of `serialize_scalar` (json/mod.rs:490; the
+third clause of the table above) is UNREACHABLE: whenever `to_u64` and `to_f64` both accept a
+scalar, `to_i64` accepts it too, with the same value — `to_f64` takes a plain integer only up to
+2^53 - 1 < i64::MAX, so an unsigned value in 2^63 ..= 2^64 - 1 (which `to_u64` alone accepts) is
+refused by `to_f64` and stays a string (`C16_narrowing_integers`).  The quick tier sends
+2^63 - 1, 2^63, 2^64 - 1, 2^64 (± 2) through the real code; coverage shows line 490 never runs. -/
+theorem C16_narrowing_u64_arm_unreachable (s : Bytes) (x f : Nat)
+    (hu : toU64 s = .ok x) (hf : toF64 s = .ok f) : toI64 s = .ok (x : Int) :=
+  u64_f64_imp_i64 s x f hu hf
+
+example : toU64 [57, 50, 50, 51, 51, 55, 50, 48, 51, 54, 56, 53, 52, 55, 55, 53, 56, 48, 56] = .ok (2 ^ 63) ∧
+    (∃ e, toI64 [57, 50, 50, 51, 51, 55, 50, 48, 51, 54, 56, 53, 52, 55, 55, 53, 56, 48, 56] = .error e) ∧
+    (∃ e, toF64 [57, 50, 50, 51, 51, 55, 50, 48, 51, 54, 56, 53, 52, 55, 55, 53, 56, 48, 56] = .error e) :=
+  ⟨rfl, ⟨_, rfl⟩, ⟨_, rfl⟩⟩
+
 /-- "Numbers f64 cannot hold exactly stay strings", closed form on digit strings: a plain
 or negated digit string is emitted as that exact integer iff its magnitude is at most
 2^53 - 1; beyond that it stays the (decoded) string — never a rounded number. -/
